@@ -17,3 +17,43 @@ package fsm
 //@   loop 1 invariant frame: forall k *container.Container :: !(k in containers) ==> k.ValueSetFromEnv == old(k.ValueSetFromEnv)
 //@   loop 2 invariant done: forall k *container.Container :: iterdone(k) && k != con ==> !k.ValueSetFromEnv && (k.ValueSetByUser != nil ==> deref(k.ValueSetByUser))
 //@   loop 2 invariant frame: forall k *container.Container :: !(k in containers) ==> k.ValueSetFromEnv == old(k.ValueSetFromEnv)
+
+// --- apply (C01 O1, C02, C09): depth-first backtracking over all matching transitions --------------------------------
+// accepts: the acceptance relation of a compiled graph, over the matcher semantics mOK/mRem/mRej of package matcher.
+// A leading `--` is stripped once (when options are still allowed) *before* the terminal test.
+//@ pure static rec func accepts(s *State, args []string, rej bool) bool =
+//@     (s.Terminal && len((len(args) > 0 && !rej && args[0] == "--") ? args[1:] : args) == 0) ||
+//@     (exists i int :: 0 <= i && i < len(s.Transitions) &&
+//@         mOK(s.Transitions[i].Matcher, (len(args) > 0 && !rej && args[0] == "--") ? args[1:] : args, rej || (len(args) > 0 && args[0] == "--")) &&
+//@         accepts(s.Transitions[i].Next,
+//@                 mRem(s.Transitions[i].Matcher, (len(args) > 0 && !rej && args[0] == "--") ? args[1:] : args, rej || (len(args) > 0 && args[0] == "--")),
+//@                 mRej(s.Transitions[i].Matcher, rej || (len(args) > 0 && args[0] == "--"))))
+// graphWF: every state and transition object is well formed (established by the parser; see DESIGN.md, bounded link O4)
+//@ pure static func graphWF() bool =
+//@     (forall t *Transition :: t != nil ==> t.Next != nil && itag(t.Matcher) != 0 && matcherWF(t.Matcher)) &&
+//@     (forall q *State, i int :: q != nil && 0 <= i && i < len(q.Transitions) ==> q.Transitions[i] != nil)
+
+// nmatch: how many of the first k transitions match (the position of T[i]'s entry in `matches`)
+//@ pure static rec func nmatch(T StateTransitions, k int, args []string, rej bool) int =
+//@     k <= 0 ? 0 : nmatch(T, k-1, args, rej) + (mOK(T[k-1].Matcher, args, rej) ? 1 : 0)
+
+//@ func (*State).apply
+//@   requires graph: graphWF()
+//@   requires recv: s != nil
+//@   requires ctx: pc.Args != nil && pc.Opts != nil && pc.Args != pc.Opts
+//@   let strip = len(args) > 0 && !pc.RejectOptions && args[0] == "--"
+//@   let a1 = (len(args) > 0 && !pc.RejectOptions && args[0] == "--") ? args[1:] : args
+//@   let r1 = pc.RejectOptions || (len(args) > 0 && args[0] == "--")
+//@   let T = s.Transitions
+//@   ensures sound: result ==> accepts(s, args, pc.RejectOptions)
+//@   ensures complete: !result ==> !accepts(s, args, pc.RejectOptions)
+//@   loop 1 invariant listed: forall j int :: {matches[j]} 0 <= j && j < len(matches) ==> matches[j] != nil && allocated(matches[j]) &&
+//@       (exists i int :: 0 <= i && i < $k && matches[j].tr == T[i]) &&
+//@       mOK(matches[j].tr.Matcher, a1, r1) && matches[j].rem == mRem(matches[j].tr.Matcher, a1, r1) &&
+//@       matches[j].pc.RejectOptions == mRej(matches[j].tr.Matcher, r1) &&
+//@       matches[j].pc.Args != nil && matches[j].pc.Opts != nil && matches[j].pc.Args != matches[j].pc.Opts &&
+//@       fresh(matches[j].pc.Args) && fresh(matches[j].pc.Opts)
+//@   loop 1 invariant count: len(matches) == nmatch(T, $k, a1, r1)
+//@   loop 1 invariant all-tried: forall i int :: 0 <= i && i < $k && mOK(T[i].Matcher, a1, r1) ==>
+//@       0 <= nmatch(T, i, a1, r1) && nmatch(T, i, a1, r1) < len(matches) && matches[nmatch(T, i, a1, r1)].tr == T[i]
+//@   loop 2 invariant rejected: forall j int :: {matches[j]} 0 <= j && j < $k ==> !accepts(matches[j].tr.Next, matches[j].rem, matches[j].pc.RejectOptions)
